@@ -222,6 +222,10 @@ def apply_step(stack, st, descs, nm=IDENT):
         new = top.drop_columns([nm.c(c) for c in st[1]])
     elif op == "rename":
         new = top.rename_columns({nm.c(p[0]): nm.c(p[1]) for p in st[1]})
+    elif op == "map_columns":
+        m = {nm.c(p[0]): nm.c(p[1]) for p in st[1]}
+        m.update({nm.c(c): None for c in st[2]})
+        new = top.map_columns(m)
     elif op == "order_rows":
         kw = {}
         if len(st[2]) > 0:
